@@ -156,4 +156,23 @@ func init() {
 	also("C11", "(prune.together) pruning removes a node's index, slot and block-slot entries together.", "prune.together")
 	also("C14", "(view.build) the Fork container is built with previous and current version in their own places.", "view.build@common.Fork")
 	also("C18", "(global.hasher) the versioned hashes shown to the engine are computed with a per-call hasher.", "global.hasher")
+	// round 5: new rules
+	also("C03", "(ops.loop) every per-block operation list is walked once, each operation checked and applied before the next is looked at (a duplicated exit/slashing in one block is then refused by the second check); (handle.kept) the handle a functional update of the pubkey cache returns is installed.", "ops.loop", "handle.kept")
+	also("C01", "(ops.loop, flag.refined) as C03 / C16.", "ops.loop", "flag.refined")
+	also("C16", "(flag.refined) once the hit of the pubkey lookup was narrowed to `known AND inside this registry`, every later decision of ProcessDeposit tests the narrowed flag; (handle.kept) as C03.", "flag.refined", "handle.kept")
+	also("C15", "(flag.refined) as C16.", "flag.refined")
+	also("C05", "(node.copy) no tree node is copied by value (the copy would keep the memoised root of the original).", "node.copy")
+	also("C04", "(node.copy) as C05.", "node.copy")
+	also("C12", "(reslice.zero) a gossip validator does not build its working sets in the memory of the message it validates.", "reslice.zero")
+	also("C15", "(epc.source) a function that sorts or rewrites (an alias of) its committee argument is never handed a committee of the shared context; (reslice.zero) x[:0] is only written over a function's own buffer.", "epc.source", "reslice.zero")
+	also("C08", "(reslice.zero) as C15.", "reslice.zero")
+	also("C13", "(global.view) genesis does not build on a tree view shared through a package-level variable.", "global.view")
+	also("C05", "(global.view) as C13.", "global.view")
+	also("C17", "(publish.init) a value published through an atomic pointer is complete when it is published.", "publish.init")
+	also("C16", "(publish.init) as C17.", "publish.init")
+	also("C20", "(pool.buffers) items of the previous / current / next slot go to the prev… / current… / next… generation of the sync-committee pool's buffers; (pool.covers) the stored aggregate is asked whether it covers the incoming one, not the reverse.", "pool.buffers", "pool.covers")
+	also("C15", "(cmp.spec@ExtraData) a payload header whose extra_data has exactly MAX_EXTRA_DATA_BYTES bytes can be stored.", "cmp.spec@common.ExtraData")
+	also("C04", "(cmp.spec@ExtraData) as C15.", "cmp.spec@common.ExtraData")
+	also("C19", fdoc+" deneb's activation churn cap min(MAX_PER_EPOCH_ACTIVATION_CHURN_LIMIT, churn limit).", "formula.spec@deneb.ProcessEpochRegistryUpdates")
+	also("C02", "(committee.partition: sampling) the sync-committee sampler weighs the candidate's effective balance as read from the state's registry, under the spec's single acceptance test.", "committee.partition")
 }
